@@ -89,7 +89,8 @@ func (r *receivingConnProvider) NewConnection() (net.Conn, error) {
 		return nil, r.lifetime.Err()
 	}
 	if err != nil {
-		r.logger.Fatal("listener.Accept failed", tag.Error(err))
+		// Not Fatal: that would end the whole process. The caller frees the slot and tries again.
+		r.logger.Error("listener.Accept failed", tag.Error(err))
 		metrics.ReceiverError.WithLabelValues(append(r.metricLabels, classifyError(err))...).Inc()
 		return nil, err
 	}
